@@ -225,6 +225,19 @@ fn emit(ctx: &mut Ctx, tag: &str, id0: u32, ser0: u64, cre: u32, counts: &[usize
     if keys.windows(2).any(|w| w[0] == w[1]) {
         ctx.fail("c16-dup-pid", &format!("schedule {} from id0={} ser0={} hands out an (id, serial) twice: {}", out.tokens.join(","), id0, ser0, per));
     }
+    let oks: Vec<u64> = out
+        .per_thread
+        .iter()
+        .flatten()
+        .filter(|r| *r != "err" && *r != "panic")
+        .filter_map(|r| {
+            let mut it = r.split('.');
+            Some((it.next()?.parse::<u64>().ok()? << 32) | it.next()?.parse::<u64>().ok()?)
+        })
+        .collect();
+    if !poisoned && oks.len() == counts.iter().sum::<usize>() {
+        crate::c16::window_check(ctx, &format!("schedule {} from id0={} ser0={}", out.tokens.join(","), id0, ser0), id0, ser0, &oks);
+    }
     ctx.count("traces_validated");
     ctx.count("sched_runs");
     if out.tokens.iter().any(|t| t.ends_with('B')) {
